@@ -80,14 +80,14 @@ def run(ctx):
         kr = b.origins(t["args"][1])
         ok_map = all(r.kind == "upvar" for r in mr)
         # key = <message>.0.id  ; value = <message>.0
-        ok_key = all(o.kind == "upvar" and o.proj and o.proj[-1] == "f1" for o in kr)
+        idf = [i for i, fl in enumerate(fx.adts["addr::weak_sender::WeakSender"]["variants"][0]["fields"]) if fl["name"] == "id"]
+        idp = "f%d" % idf[0] if idf else "f?"
+        ok_key = all(o.kind == "upvar" and o.proj and o.proj[-1] == idp for o in kr)
         ok_val = True
         if op == "insert":
             vr = b.origins(t["args"][2])
             ok_val = all(o.kind == "upvar" for o in vr) and {(o.site, o.proj) for o in vr} == {(o.site, o.proj[:-1]) for o in kr}
-        # f1 is the id field
-        idf = [i for i, fl in enumerate(fx.adts["addr::weak_sender::WeakSender"]["variants"][0]["fields"]) if fl["name"] == "id"]
-        ctx.require(ok_map and ok_key and ok_val and idf == [1], "R09.2", msg, "%s must key the table by the id of the very sender it carries" % msg, fn=cos[0]["def"], site=t["l"], detail={"key": sorted(map(str, kr))})
+        ctx.require(ok_map and ok_key and ok_val and len(idf) == 1, "R09.2", msg, "%s must key the table by the id of the very sender it carries" % msg, fn=cos[0]["def"], site=t["l"], detail={"key": sorted(map(str, kr))})
     # ContextID minted only by the counter
     mints = []
     for f in fx.d["fns"]:
